@@ -103,3 +103,25 @@ def _explicit(a=Option("A", 1)):
 
 
 explicit_ds = dataset(_explicit)
+
+
+# ---- user-written subclasses of public classes, with state of their own ----------------------------------------------
+from labrea.overload import Overloaded      # noqa: E402
+
+
+class TaggedOverloaded(Overloaded):
+    """What a user may write: an Overloaded that remembers extra per-instance settings (set in __init__, one of them with
+    a class-level default) and uses them when it is evaluated."""
+
+    strict = False
+
+    def __init__(self, dispatch, lookup, default, tag, strict):
+        super().__init__(dispatch, lookup, default)
+        self.tag = tag
+        self.strict = strict
+
+    def evaluate(self, options):
+        value = self.switch.evaluate(options)     # (what Overloaded.evaluate does)
+        if self.strict and value is None:
+            raise ValueError("strict: no value")
+        return (self.tag, value)
